@@ -30,31 +30,81 @@ def r1(ctx):
     counts = [call('<movegen::movegen::MoveGen as core::iter::traits::exact_size::ExactSizeIterator>::len', gen),
               call('core::iter::traits::iterator::Iterator::count', gen)]
     empty_tests = [call('core::iter::traits::exact_size::ExactSizeIterator::is_empty', gen)]
-    results = {}
-    unknown = []
-    for nomoves in (True, False):
-        for incheck in (True, False):
-            def decide(c, vals):
-                for cp in counts:
-                    if match(cp, c) is not None:
-                        return 0 if nomoves else 'otherwise'
-                    if match(('bin', 'Eq', cp, ('int', 0, 'usize')), c) is not None:
-                        return as_bool(nomoves, vals)
-                if c[0] in ('bbeq', 'bbne') and set(c[1:]) == {('bb0',), ('field', SELF, 'checkers')}:
-                    return as_bool((not incheck) if c[0] == 'bbeq' else incheck, vals)
-                unknown.append(c)
-                return None
-            leaves = eval_tree(r, decide)
-            results[(nomoves, incheck)] = leaves
-    if unknown:
-        ctx.inconclusive(R, 'status() tests something other than the move count and checkers: ' + sh(unknown[0], 200))
-        return
+    seen = set()
+
+    def table(foreign):
+        results = {}
+        unknown = []
+        for nomoves in (True, False):
+            for incheck in (True, False):
+                def decide(c, vals):
+                    for cp in counts:
+                        if match(cp, c) is not None:
+                            seen.add('n')
+                            return 0 if nomoves else 'otherwise'
+                        if match(('bin', 'Eq', cp, ('int', 0, 'usize')), c) is not None:
+                            seen.add('n')
+                            return as_bool(nomoves, vals)
+                    if c[0] in ('bbeq', 'bbne') and set(c[1:]) == {('bb0',), ('field', SELF, 'checkers')}:
+                        seen.add('c')
+                        return as_bool((not incheck) if c[0] == 'bbeq' else incheck, vals)
+                    k = sh(c, 200)
+                    if k in foreign and set(vals) <= {0, 1, 'otherwise'}:
+                        return as_bool(foreign[k], vals)
+                    unknown.append(c)
+                    return None
+                results[(nomoves, incheck)] = eval_tree(r, decide)
+        return results, unknown
     want = {(True, True): 'Checkmate', (True, False): 'Stalemate', (False, True): 'Ongoing', (False, False): 'Ongoing'}
-    bad = []
-    for k, v in want.items():
-        got = results[k]
-        if got != [('enum', ST, v)]:
-            bad.append('(no legal move=%s, in check=%s) -> %s, expected %s' % (k[0], k[1], [sh(g, 40) for g in got], v))
+
+    def wrong(results):
+        bad = []
+        for k, v in want.items():
+            got = results[k]
+            if got != [('enum', ST, v)]:
+                bad.append('(no legal move=%s, in check=%s) -> %s, expected %s' % (k[0], k[1], [sh(g, 40) for g in got], v))
+        return bad
+    results, unknown = table({})
+    if unknown:
+        # Foreign atoms (conditions over anything but the move count and checkers) are treated as free: if the table is
+        # right under every valuation they are harmless; if the two proper atoms are both still consulted and some
+        # valuation of a foreign atom yields a wrong row, status() answers without (or against) the defining test there.
+        names = []
+        for c in unknown:
+            if sh(c, 200) not in names:
+                names.append(sh(c, 200))
+        names_all = list(names)
+        grow = True
+        failing = None
+        import itertools
+        while grow and len(names_all) <= 4:
+            grow = False
+            failing = None
+            for bits in itertools.product((True, False), repeat=len(names_all)):
+                val = dict(zip(names_all, bits))
+                res, unk = table(val)
+                new = [sh(c, 200) for c in unk if sh(c, 200) not in names_all]
+                if new:
+                    names_all.extend(sorted(set(new)))
+                    grow = True
+                    break
+                b = wrong(res)
+                if b and failing is None:
+                    failing = (val, b)
+        if grow or len(names_all) > 4:
+            ctx.inconclusive(R, 'status() tests something other than the move count and checkers: ' + names_all[0])
+            return
+        if failing is None:
+            ctx.ok(R, 'status table right under every valuation of the additional condition(s) %s' % names_all, w)
+            return
+        if {'n', 'c'} <= seen:
+            val, b = failing
+            ctx.violation(R, KEY + ':foreign-condition', 'status() answers from a condition that is neither the move count nor the checkers: when %s, %s' % (
+                ', '.join('%s is %s' % (k, v) for k, v in val.items()), '; '.join(b)), w)
+        else:
+            ctx.inconclusive(R, 'status() replaces the move-count or checkers test by another condition: ' + names_all[0])
+        return
+    bad = wrong(results)
     if bad:
         ctx.violation(R, KEY, 'status decision table wrong: ' + '; '.join(bad), w)
     else:
